@@ -120,6 +120,11 @@ Occ(seq, i) == Cardinality({k \in 1..Len(seq) : seq[k] = i})
 
 (* Merging a day yields exactly one record per report stored for that day   *)
 (* (whatever the size class of the reports).                                *)
+(* The number of stored reports is not bounded by any resource of the       *)
+(* serving process: Merge is enabled for every Stored(d) and reads the      *)
+(* objects one after the other.  The driver therefore also merges a day     *)
+(* that has more reports than the process may hold open descriptors         *)
+(* (soft RLIMIT_NOFILE lowered to 32 around the handlers, 45-60 reports).   *)
 MergeOnePerStored ==
     [][last'.op = "merge" =>
          LET d == last'.a IN
